@@ -198,7 +198,10 @@ def main():
     failures, evaluations, nontrivial = [], 0, 0
     for i in range(n):
         sc = scenario(rng, i)
-        rep = run_one(sc)
+        try:
+            rep = run_one(sc)
+        except Exception as e:  # noqa: BLE001
+            rep = {"changed": 0, "violation": f"raised {type(e).__name__}: {str(e)[:120]}"}
         if "skipped" in rep:
             continue
         evaluations += 1
